@@ -3,6 +3,7 @@ import PMV.Generated.Names
 import PMV.Model.Pipeline
 import PMV.Proofs.Rename
 import PMV.Proofs.Freeze
+import PMV.Proofs.Taint
 /-
   C09 — Dynamic name access freezes every name in the module.
   Proved: (G) the generated top-level shape of `minify()` equals the modelled one, in which literal
@@ -11,7 +12,10 @@ import PMV.Proofs.Freeze
   no name; (F) with the renaming flags cleared, the traversal `allow_rename_locals` / `allow_rename_globals` freezes every binding
   of every namespace, at any depth and whatever kind of node it hangs on (model `PMV.Freeze`, compared with the real functions on
   the namespace trees of the generated programs on every run) — the premise of (T).
-  Taint *detection* (which programs set `module.tainted`) is decided by the oracle only.
+  (D) the name part of taint *detection* is modelled on the resolver model of C03: a module is tainted by names exactly when some
+  lookup of `exec` / `eval` / `locals` / `globals` / `vars` finds no binding on Python's lookup path (compared with the real
+  `module.tainted` on every generated program); star imports, `timeit` and the only-declared rule are syntactic and read off the tree.
+  That a trigger name *bound* somewhere may still be the builtin at run time (findings F29a–d) is outside any static rule of this kind.
 -/
 namespace PMV.C09
 open PMV.Rename
@@ -59,5 +63,28 @@ example :
     let tree : Freeze.Node := .mk true true [(0, some "module_name")] [.mk false false [] [lam], fn]
     Freeze.freezeLocals false [] tree = [2, 1, 3] ∧ Freeze.freezeLocals true ["args"] tree = [2]
     ∧ Freeze.freezeGlobals false [] [] [] [(0, some "module_name")] = [0] := by decide
+
+/-! ### taint detection by names (model `PMV.Taint` over the namespace tree of C03) -/
+
+/-- T09.4a: the module is tainted by names exactly when some lookup of a trigger name finds no binding on Python's lookup path
+    of that use — own scope unless `global` / `nonlocal`, enclosing non-class scopes, module — so the name means the builtin. -/
+theorem tainted_by_names_iff (t : Resolve.Tree) (fuel : Nat) (lookups : List Taint.Lookup) :
+    Taint.taintedByNames t fuel lookups = true ↔
+      ∃ l ∈ lookups, l.1 ∈ Taint.triggers ∧ ∀ a ∈ Resolve.lookupPath t l.1 fuel l.2, (Resolve.info t a).bindings.contains l.1 = false :=
+  Taint.taintedByNames_iff t fuel lookups
+
+/-- T09.4b: a trigger name that is bound in a scope the use can see is a program variable: that lookup does not taint
+    (the control group of the oracle; why F29a–d are possible at all). -/
+theorem bound_trigger_does_not_taint (t : Resolve.Tree) (fuel : Nat) (l : Taint.Lookup) (a : Nat)
+    (ha : a ∈ Resolve.lookupPath t l.1 fuel l.2) (hb : (Resolve.info t a).bindings.contains l.1 = true) : Taint.taintsBy t fuel l = false :=
+  Taint.bound_trigger_does_not_taint t fuel l a ha hb
+
+-- Non-vacuity: `eval` read in a method (2) of a class (1) that binds `eval` as an attribute: class bodies are skipped, the module
+-- does not bind it → tainted; the same read with `eval` bound at module level → not tainted; `print` is no trigger.
+example :
+    let t : Resolve.Tree := [⟨.module, 0, ["Holder"], [], []⟩, ⟨.class_, 0, ["eval", "method"], [], []⟩, ⟨.function, 1, ["self"], [], []⟩]
+    let t2 : Resolve.Tree := [⟨.module, 0, ["Holder", "eval"], [], []⟩, ⟨.class_, 0, ["method"], [], []⟩, ⟨.function, 1, ["self"], [], []⟩]
+    Taint.taintedByNames t 5 [("eval", 2)] = true ∧ Taint.taintedByNames t 5 [("eval", 1), ("print", 2)] = false
+    ∧ Taint.taintedByNames t2 5 [("eval", 2)] = false := by decide
 
 end PMV.C09
